@@ -256,7 +256,7 @@ func (c *c13) runHistory(ctx *RunCtx) *RunResult {
 		oc   Outcome
 	}
 	var handles []handle
-	simrt.Reset(1, nil, mapSeed)
+	simrt.Reset(1, soloPlan(t, treeSpawnsCached(c.env), 20000), mapSeed)
 	simrt.Solo()
 	evh := uint64(7)
 	type pairKey struct{ item, variant int }
@@ -674,7 +674,7 @@ func (c *c13) runSession(ctx *RunCtx) *RunResult {
 	}
 	d.Whole, d.Alone, d.Expanded, d.Subr = whole.String(), alone, expanded, subr
 
-	simrt.Reset(1, nil, mapSeed)
+	simrt.Reset(1, soloPlan(t, treeSpawnsCached(c.env), 20000), mapSeed)
 	simrt.Solo()
 	const budget = 400000
 	eval := func(src string) Outcome {
